@@ -51,6 +51,14 @@ func hd10Doc(focus, n, idlen int) did.Document {
 	d.VerificationMethod = did.VerificationMethods{k}
 	d.CapabilityInvocation = did.VerificationRelationships{{VerificationMethod: k}}
 	d.Service = []did.Service{hd10Service("s")}
+	rels := func() did.VerificationRelationships {
+		var out did.VerificationRelationships
+		for _, id := range ids {
+			// a relationship may refer to a key of another document (e.g. of a controller): not listed in verificationMethod
+			out = append(out, did.VerificationRelationship{VerificationMethod: hd10Key(id)})
+		}
+		return out
+	}
 	switch focus {
 	case 0:
 		d.Controller = nil
@@ -63,21 +71,25 @@ func hd10Doc(focus, n, idlen int) did.Document {
 			d.Service = append(d.Service, hd10Service(id))
 		}
 	case 2:
-		d.VerificationMethod, d.CapabilityInvocation = nil, nil
+		d.VerificationMethod = nil
 		for _, id := range ids {
-			k := hd10Key(id)
-			d.VerificationMethod = append(d.VerificationMethod, k)
-			d.CapabilityInvocation = append(d.CapabilityInvocation, did.VerificationRelationship{VerificationMethod: k})
-			d.AssertionMethod = append(d.AssertionMethod, did.VerificationRelationship{VerificationMethod: k})
-			d.Authentication = append(d.Authentication, did.VerificationRelationship{VerificationMethod: k})
-			d.KeyAgreement = append(d.KeyAgreement, did.VerificationRelationship{VerificationMethod: k})
-			d.CapabilityDelegation = append(d.CapabilityDelegation, did.VerificationRelationship{VerificationMethod: k})
+			d.VerificationMethod = append(d.VerificationMethod, hd10Key(id))
 		}
 	case 3:
 		d.Context = nil
 		for _, id := range ids {
 			d.Context = append(d.Context, "ctx:"+id)
 		}
+	case 4:
+		d.CapabilityInvocation = rels()
+	case 5:
+		d.AssertionMethod = rels()
+	case 6:
+		d.Authentication = rels()
+	case 7:
+		d.KeyAgreement = rels()
+	case 8:
+		d.CapabilityDelegation = rels()
 	}
 	return d
 }
@@ -163,21 +175,10 @@ func hd10NoDup(a []string) bool {
 func H10d() {
 	idlen := vParam("idlen10d", 2)
 	maxn := vParam("n10d", 2)
-	focus := vChoice(4)
-	switch focus {
-	case 0:
-		vCover("controllers")
-		vClass("controllers")
-	case 1:
-		vCover("services")
-		vClass("services")
-	case 2:
-		vCover("keys")
-		vClass("keys")
-	case 3:
-		vCover("contexts")
-		vClass("contexts")
-	}
+	focus := vChoice(len(hd10FieldNames) - 1)
+	// the focus selects the component with symbolic elements; field f of hd10Strs is component f
+	vCover(hd10FieldNames[focus])
+	vClass(hd10FieldNames[focus])
 	na := vLen(1, maxn)
 	nb := vLen(1, maxn)
 	if vParam("sum10d", 0) != 0 && na+nb > vParam("sum10d", 0) {
